@@ -66,7 +66,16 @@ def adaptive_cases(tier, rng):
                     scripted.append(dict(problem='test', e_tol=1e-5, dt=0.1, tend=0.25, maxiter=2, max_restarts=maxr, crash=crash, script=list(script), **st))
     if tier == 'quick':
         scripted = rng.sample(scripted, 1500)
-    return C + scripted
+    # avoid_restarts: a step whose estimate is too large at maxiter may keep iterating if the contraction of the estimates promises
+    # convergence soon -- scripted per ITERATION; it must still end below the tolerance or be restarted
+    RI = [400.0, 50.0, 20.0, 5.0, 2.0, 1.9, 1.2, 0.9, 0.4]
+    avoid = []
+    for k in range(400 if tier == 'quick' else 6000):
+        n = rng.randint(3, 7)
+        seq = sorted((rng.choice(RI) for _ in range(n)), reverse=True) if rng.random() < 0.7 else [rng.choice(RI) for _ in range(n)]
+        avoid.append(dict(problem='test', e_tol=1e-5, dt=0.1, tend=0.15, maxiter=rng.choice([2, 3]), max_restarts=rng.choice([1, 2]),
+                          crash=rng.random() < 0.5, script=seq, per_iteration=True, avoid_restarts=True))
+    return C + scripted + avoid
 
 
 def _adapt_job(case):
